@@ -102,7 +102,7 @@ def run(ctx, log):
         cls = h.split()[0] + (" " + h.split()[1] if h.startswith("ERR") else "")
         ctx.seen(s)
         ctx.count(k.split(":")[0] + ":" + cls)
-        if cls in ("OK", "BUDGET") or h.startswith("ERR "):
+        if cls in ("OK", "BUDGET", "OOM") or h.startswith("ERR "):
             continue
         kf = classify_known(s, o, findings)
         if kf:
